@@ -99,7 +99,9 @@ def get_eof_2qubit(rho:np.ndarray):
         ret = 0
     else:
         tmp1 = (1 + np.sqrt(1-tmp0*tmp0))/2
-        ret = -tmp1*np.log(tmp1) - (1-tmp1)*np.log(1-tmp1)
+        ret = -tmp1*np.log(tmp1)
+        if tmp1<1: #0*log(0)=0, tmp1 rounds to 1 for concurrence below 1e-8
+            ret = ret - (1-tmp1)*np.log(1-tmp1)
     return ret
 
 
